@@ -227,7 +227,21 @@ def unit_std(prop, which):
     return unit
 
 
+def unit_read_signal(prop, which):
+    def unit(tier, known):
+        from contracts import read_signal as C
+        if which == "dispatch":
+            return run_contract(prop, ("util", "read_signal"), C.contract(), C.SETUPS, name="read_signal", to_case=C.to_case, replay_module="rtc.c11")
+        if which == "infer":
+            return run_contract(prop, ("util", "_infer_force_as_from_rfilename"), C.contract_infer(), [("", C.setup_infer)], name="infer_force_as",
+                                to_case=C.to_case, replay_module="rtc.c11")
+        return run_contract(prop, ("util", "wds_read_signal"), C.contract_wds(), C.WDS_SETUPS, name="wds_read_signal", to_case=C.to_case, replay_module="rtc.c11")
+    unit.__name__ = "read_signal_" + which
+    return unit
+
+
 UNITS = {
+    "C11": [unit_read_signal("C11", "dispatch"), unit_read_signal("C11", "wds"), unit_read_signal("C11", "infer")],
     "C16": [unit_std("C16", "accumulate_vector"), unit_std("C16", "apply_vector"), unit_std("C16", "have_stats")],
     "C17": [unit_std("C17", "accumulate_vector"), _lazy("contracts.standardize", "unit_sanitize_accepts_saved", "C17")],
     "C08": [unit_alias_arg("C08")],
